@@ -83,10 +83,12 @@ func (line *Line) ContainsLine(other *Line) bool {
 		return false
 	}
 	otherNumSegments := other.NumSegments()
+	var walked int // direction walked while looking for the current segment
 	for i := 1; i < otherNumSegments; i++ {
 		lineSeg := line.SegmentAt(segIdx)
 		otherSeg := other.SegmentAt(i)
 		if lineSeg.ContainsSegment(otherSeg) {
+			walked = 0
 			continue
 		}
 		if otherSeg.A == lineSeg.A {
@@ -94,6 +96,12 @@ func (line *Line) ContainsLine(other *Line) bool {
 			if segIdx == 0 {
 				return false
 			}
+			if walked > 0 {
+				// already walked forward to get here, walking back again
+				// would never end.
+				return false
+			}
+			walked = -1
 			segIdx--
 			i--
 		} else if otherSeg.A == lineSeg.B {
@@ -101,6 +109,12 @@ func (line *Line) ContainsLine(other *Line) bool {
 			if segIdx == lineNumSegments-1 {
 				return false
 			}
+			if walked < 0 {
+				// already walked backward to get here, walking forward again
+				// would never end.
+				return false
+			}
+			walked = 1
 			segIdx++
 			i--
 		}
